@@ -31,34 +31,42 @@ Lemma beta_tolerance_pos : 0 < SPath_beta_tolerance.
 Proof. unfold SPath_beta_tolerance. lra. Qed.
 
 (* ---------------------------------------------------------------- generated = closed form *)
-Lemma gen_int_terms s b z : b <= nzs s z -> 0 <= b ->
+Lemma gen_int_terms s b z : good s -> b <= nzs s z -> 0 < b ->
   SPath_int_terms z b s =
     (al (Ice_n0 s) b, nzs s z, ga (Ice_n0 s) (Ice_k s) (Ice_a s) b z,
      lg1 (Ice_n0 s) (Ice_k s) (Ice_a s) b z, lg2 (Ice_n0 s) (Ice_k s) (Ice_a s) b z).
 Proof.
-  intros Hn Hb. unfold SPath_int_terms, nzs, lg1, lg2, ga, al, nz in *.
+  intros [Ha Hk] Hn Hb.
+  pose proof (nz_lt_n0 (Ice_n0 s) (Ice_k s) (Ice_a s) Hk z) as Hlt.
+  unfold SPath_int_terms, nzs, lg1, lg2, ga, al in *.
   cbv zeta.
   match goal with |- context [Rltb ?g 0] => destruct (Rltb g 0) eqn:E end.
-  - apply Rltb_true in E. exfalso. nra.
-  - repeat f_equal. ring.
+  - apply Rltb_true in E. exfalso. unfold nz in *. nra.
+  - fold (nz (Ice_n0 s) (Ice_k s) (Ice_a s) z).
+    set (n := nz (Ice_n0 s) (Ice_k s) (Ice_a s) z) in *.
+    assert (Hag : 0 <= (Ice_n0 s ^ 2 - b ^ 2) * (n ^ 2 - b ^ 2)) by (apply Rmult_le_pos; nra).
+    assert (Hd : Ice_n0 s * n - b ^ 2 + sqrt ((Ice_n0 s ^ 2 - b ^ 2) * (n ^ 2 - b ^ 2)) <> 0).
+    { pose proof (sqrt_pos ((Ice_n0 s ^ 2 - b ^ 2) * (n ^ 2 - b ^ 2))). nra. }
+    rewrite (log1_stable_gen (Ice_n0 s) n b Hag Hd).
+    repeat f_equal; unfold n, nz; ring.
 Qed.
 
-Lemma gen_dist_shallow s b z : SPath_beta_tolerance < b -> b <= nzs s z ->
+Lemma gen_dist_shallow s b z : good s -> SPath_beta_tolerance < b -> b <= nzs s z ->
   SPath_distance_integral z b s false =
     b / sqrt (al (Ice_n0 s) b) * L1 (Ice_n0 s) (Ice_k s) (Ice_a s) b z.
 Proof.
-  intros Hb Hn. pose proof beta_tolerance_pos.
-  unfold SPath_distance_integral. rewrite gen_int_terms by lra.
+  intros G Hb Hn. pose proof beta_tolerance_pos.
+  unfold SPath_distance_integral. rewrite gen_int_terms by (assumption || lra).
   rewrite isclose_beta_false by assumption. reflexivity.
 Qed.
 
-Lemma gen_plen_shallow s b z : SPath_beta_tolerance < b -> b <= nzs s z ->
+Lemma gen_plen_shallow s b z : good s -> SPath_beta_tolerance < b -> b <= nzs s z ->
   SPath_pathlen_integral z b s false =
     Ice_n0 s / sqrt (al (Ice_n0 s) b) * L1 (Ice_n0 s) (Ice_k s) (Ice_a s) b z
     + L2 (Ice_n0 s) (Ice_k s) (Ice_a s) b z.
 Proof.
-  intros Hb Hn. pose proof beta_tolerance_pos.
-  unfold SPath_pathlen_integral. rewrite gen_int_terms by lra.
+  intros G Hb Hn. pose proof beta_tolerance_pos.
+  unfold SPath_pathlen_integral. rewrite gen_int_terms by (assumption || lra).
   rewrite isclose_beta_false by assumption. reflexivity.
 Qed.
 
@@ -68,8 +76,8 @@ Lemma gen_tof_shallow s b z : good s -> SPath_beta_tolerance < b -> b <= nzs s z
      + Ice_n0 s * L2 (Ice_n0 s) (Ice_k s) (Ice_a s) b z
      + Ice_n0 s ^ 2 / sqrt (al (Ice_n0 s) b) * L1 (Ice_n0 s) (Ice_k s) (Ice_a s) b z) / speed_of_light.
 Proof.
-  intros [Ha Hk] Hb Hn. pose proof beta_tolerance_pos.
-  unfold SPath_tof_integral. rewrite gen_int_terms by lra.
+  intros G Hb Hn. pose proof G as [Ha Hk]. pose proof beta_tolerance_pos.
+  unfold SPath_tof_integral. rewrite gen_int_terms by (assumption || lra).
   rewrite isclose_beta_false by assumption. cbv iota beta.
   assert (0 < al (Ice_n0 s) b).
   { unfold al. pose proof (nz_lt_n0 (Ice_n0 s) (Ice_k s) (Ice_a s) Hk z). unfold nzs in Hn. nra. }
@@ -100,7 +108,7 @@ Proof.
   intros G Hb Hn. pose proof G as [Ha Hk]. pose proof beta_tolerance_pos.
   apply is_derive_ext_loc with (fun y => b / sqrt (al (Ice_n0 s) b) * L1 (Ice_n0 s) (Ice_k s) (Ice_a s) b y).
   - generalize (locally_above s b z G Hn). apply filter_imp. intros y Hy.
-    symmetry. apply gen_dist_shallow; lra.
+    symmetry. apply gen_dist_shallow; (assumption || lra).
   - apply dist_cf_derive; (assumption || lra).
 Qed.
 
@@ -111,7 +119,7 @@ Proof.
   apply is_derive_ext_loc with (fun y => Ice_n0 s / sqrt (al (Ice_n0 s) b) * L1 (Ice_n0 s) (Ice_k s) (Ice_a s) b y
                                         + L2 (Ice_n0 s) (Ice_k s) (Ice_a s) b y).
   - generalize (locally_above s b z G Hn). apply filter_imp. intros y Hy.
-    symmetry. apply gen_plen_shallow; lra.
+    symmetry. apply gen_plen_shallow; (assumption || lra).
   - apply plen_cf_derive; (assumption || lra).
 Qed.
 
@@ -302,7 +310,7 @@ Section Definite.
     is_RInt (tan_theta s b) u v (SPath_distance_integral v b s false - SPath_distance_integral u b s false).
   Proof.
     intros Hu Hv. destruct G as [Ha Hk].
-    rewrite !gen_dist_shallow by (try assumption; eapply le_at; eassumption).
+    rewrite !gen_dist_shallow by (try assumption; try (split; assumption); eapply le_at; eassumption).
     apply (dist_definite (Ice_n0 s) (Ice_k s) (Ice_a s) Ha Hk b u v Hb0).
     apply (above_below_top s b u v top); assumption.
   Qed.
@@ -311,7 +319,7 @@ Section Definite.
     is_RInt (sec_theta s b) u v (SPath_pathlen_integral v b s false - SPath_pathlen_integral u b s false).
   Proof.
     intros Hu Hv. destruct G as [Ha Hk].
-    rewrite !gen_plen_shallow by (try assumption; eapply le_at; eassumption).
+    rewrite !gen_plen_shallow by (try assumption; try (split; assumption); eapply le_at; eassumption).
     apply (plen_definite (Ice_n0 s) (Ice_k s) (Ice_a s) Ha Hk b u v Hb0).
     apply (above_below_top s b u v top); assumption.
   Qed.
@@ -493,17 +501,21 @@ Proof.
 Qed.
 
 (* ---------------------------------------------------------------- log_term_1 in cancellation-free form (clause 7) *)
+(* the code computes log_term_1 as beta^2 (k e^{az})^2 / (n0 n - beta^2 + sqrt(alpha gamma)); that IS
+   the textbook n0 n - beta^2 - sqrt(alpha gamma) of the closed-form integrals *)
 Lemma log1_stable_lemma s b z : good s -> 0 < b -> b <= nzs s z ->
   let '(alpha, n_z, gamma, log_1, log_2) := SPath_int_terms z b s in
-  log_1 = b ^ 2 * (Ice_k s * exp (Ice_a s * z)) ^ 2 / (Ice_n0 s * n_z - b ^ 2 + sqrt (alpha * gamma)).
+  log_1 = Ice_n0 s * n_z - b ^ 2 - sqrt (alpha * gamma) /\
+  log_1 = b ^ 2 * (Ice_n0 s - n_z) ^ 2 / (Ice_n0 s * n_z - b ^ 2 + sqrt (alpha * gamma)) /\
+  0 < log_1.
 Proof.
-  intros [Ha Hk] Hb Hn. rewrite gen_int_terms by lra.
+  intros G Hb Hn. pose proof G as [Ha Hk]. rewrite gen_int_terms by (assumption || lra).
   pose proof (nz_lt_n0 (Ice_n0 s) (Ice_k s) (Ice_a s) Hk z) as Hlt. unfold nzs in *.
   assert (Hag : 0 <= (Ice_n0 s ^ 2 - b ^ 2) * (nz (Ice_n0 s) (Ice_k s) (Ice_a s) z ^ 2 - b ^ 2)) by (apply Rmult_le_pos; nra).
-  unfold lg1, al, ga.
-  rewrite (log1_stable_gen (Ice_n0 s) (nz (Ice_n0 s) (Ice_k s) (Ice_a s) z) b Hag).
-  - f_equal. f_equal. unfold nz. ring.
-  - pose proof (sqrt_pos ((Ice_n0 s ^ 2 - b ^ 2) * (nz (Ice_n0 s) (Ice_k s) (Ice_a s) z ^ 2 - b ^ 2))). nra.
+  split; [reflexivity|]. split.
+  - unfold lg1, al, ga. apply log1_stable_gen; [exact Hag|].
+    pose proof (sqrt_pos ((Ice_n0 s ^ 2 - b ^ 2) * (nz (Ice_n0 s) (Ice_k s) (Ice_a s) z ^ 2 - b ^ 2))). nra.
+  - apply lg1_pos; assumption.
 Qed.
 
 (* both endpoints below z_uniform: only the uniform-index branch is used, whatever beta *)
